@@ -635,7 +635,7 @@ func (state *BuildState) forwardResults() {
 			log.Debug("%s", r)
 		}
 	}()
-	activeTargets := map[*BuildTarget]struct{}{}
+	activeTargets := map[BuildLabel]struct{}{}
 	// Persist this one timer throughout so we don't generate bazillions of them.
 	t := time.NewTimer(cycleCheckDuration)
 	t.Stop()
@@ -658,12 +658,14 @@ func (state *BuildState) forwardResults() {
 		} else {
 			result = <-state.progress.internalResults
 		}
-		if target := result.target; target != nil {
-			if result.Status.IsActive() {
-				activeTargets[target] = struct{}{}
-			} else {
-				delete(activeTargets, target)
+		if result.Status.IsActive() {
+			if result.target != nil {
+				activeTargets[result.Label] = struct{}{}
 			}
+		} else {
+			// Failures are logged without the target itself, so this must go by label;
+			// otherwise a failed target stays "active" forever and cycle detection never runs again.
+			delete(activeTargets, result.Label)
 		}
 		state.progress.mutex.Lock()
 		if state.progress.results != nil {
